@@ -22,7 +22,7 @@ Local Open Scope N_scope.
    SharedVrf : before 85029df (one poolVRFs map shared by the three pool families) - and everything below
    Unguarded : before a1ebdc8 / 1de6b72 (range loops of buildFreeList / parseExcludeRange ran past the last
                address; NewPrefixAllocator accepted prefix lengths above 128) - and the one below
-   V4Pd      : NewPrefixAllocator accepts an IPv4 network for a PD pool (see pd_new) *)
+   V4Pd      : before 2cd02c0 (NewPrefixAllocator accepted an IPv4 network for a PD pool, see pd_new) *)
 Inductive variant := Repaired | Defective | SharedVrf | Unguarded | V4Pd.
 Definition is_defective (v : variant) : bool := match v with Defective => true | _ => false end.
 Definition shared_vrf (v : variant) : bool := match v with Defective | SharedVrf => true | _ => false end.
@@ -446,6 +446,26 @@ Definition acontains (v : variant) (ac : acfg) (x : rarg) : bool :=
   | APd c, RP p => match prefix_to_index v c p with Some _ => true | None => false end
   | _, _ => false
   end.
+(* PrefixAllocator.Overlaps (23daa44): the prefix shares addresses with the pool network without being one
+   of the pool's delegations - another length covering the network or lying inside it, or the delegated
+   length where Contains says no.  netip.Prefix.Overlaps: same family and the first min(bits) bits agree. *)
+Definition overlaps (v : variant) (c : pdcfg) (p : pfx) : bool :=
+  match p with
+  | PNil => false
+  | Pfx ip ones bits =>
+      match prefix_to_index v c p with
+      | Some _ => false
+      | None =>
+          if negb (N.eqb bits 128) then false else
+          match norm ip with
+          | Some (V6, A) =>
+              let m := N.min (pd_nbits c) ones in
+              N.eqb (A / N.pow 2 (128 - m)) (pd_base c / N.pow 2 (128 - m))
+          | _ => false      (* bad slice; an IPv4 address (after Unmap) never overlaps an IPv6 network *)
+          end
+      end
+  end.
+
 (* the key of an Allocate answer; None: not something this allocator can have handed out *)
 Definition aobs_key (v : variant) (ac : acfg) (o : gobs) : option addr :=
   match ac, o with
@@ -664,7 +684,8 @@ Inductive rcall :=
 (* obs of the walks `for _, alloc := range <Go map> { if alloc.Contains(x) {...; return} }`:
    the allocator the implementation stopped at (Go map order) *)
 Inductive rout :=
-| ROAns (k : key) (o : gobs) | ROExhausted | ROOk | ROReserved | RONum (n : N) | RONoPool | ROList (l : list key).
+| ROAns (k : key) (o : gobs) | ROExhausted | ROOk | ROReserved | RONum (n : N) | RONoPool | ROList (l : list key)
+| ROOverlap.   (* ReservePD*: the prefix is no delegation of any pool but overlaps a pool network (23daa44) *)
 
 Definition rout_of (o : out) : rout :=
   match o with
@@ -708,6 +729,22 @@ Definition walk (v : variant) (st : rstate) (f : rfam) (x : rarg) (obs : option 
       | None => None
       end
   end.
+(* pdOverlapLocked: after a ReservePD / ReservePDInPool walk that found no pool containing the prefix *)
+Definition pd_overlap (v : variant) (st : rstate) (x : rarg) : bool :=
+  match x with
+  | RP p => existsb (fun e => match fst (snd e) with APd c => overlaps v c p | APool _ => false end) (r_apd st)
+  | RA _ => false
+  end.
+Definition reserve_walk (v : variant) (st : rstate) (f : rfam) (x : rarg) (s : sid) (obs : option key)
+  : option (rstate * rout) :=
+  match walk v st f x obs (mk_reserve v x s) with
+  | Some (st', ROOk) =>
+      match f, obs with
+      | FPD, None => if pd_overlap v st x then Some (st', ROOverlap) else Some (st', ROOk)
+      | _, _ => Some (st', ROOk)
+      end
+  | r => r
+  end.
 Definition map_pools (v : variant) (st : rstate) (f : rfam) (mk : acfg -> option call) : rstate :=
   set_allocs st f
     (map (fun e => match mk (fst (snd e)) with
@@ -737,9 +774,9 @@ Definition reg_step (v : variant) (st : rstate) (k : rcall) : option (rstate * r
       match assoc_find key_eqb k' (r_allocs st f) with
       | Some _ => match on_pool v st f k' (mk_reserve v x s) with
                   | Some (st', o) => Some (st', rout_of o) | None => None end
-      | None => walk v st f x obs (mk_reserve v x s)
+      | None => reserve_walk v st f x s obs
       end
-  | RReserve f x s obs => walk v st f x obs (mk_reserve v x s)
+  | RReserve f x s obs => reserve_walk v st f x s obs
   | RReleaseInPool f k' x obs =>
       match assoc_find key_eqb k' (r_allocs st f) with
       | Some _ => match on_pool v st f k' (mk_release v x) with
@@ -841,6 +878,7 @@ Definition resolve6 (v : variant) (st : rstate) (profile naov pdov vrf : N) (s :
             match reg_step v st1 (RReserve FPD (RP p) s wpd) with
             | Some (st', ROOk) => Some (st', false, None, None)
             | Some (st', ROReserved) => Some (st', true, None, None)
+            | Some (st', ROOverlap) => Some (st', true, None, None)
             | _ => None
             end
         end in
